@@ -115,7 +115,9 @@ pub fn gen_plan(t: &mut Tape, po: &PlanOpts) -> DefPlan {
         } else if k == 1 && po.allow_tune {
             let v = |t: &mut Tape, hi: usize| -> c_int {
                 if po.tune_table_domain {
-                    t.pick(&[1usize, 2, 3, 4, 8, 16, 32, 128, 258, hi]).min(hi) as c_int
+                    // >= 4 like every row of the configuration table: with max_chain < 4 and a small good_match the
+                    // chain counter (chain >> 2 == 0, then pre-decremented) wraps and zlib-ng walks stale chains for minutes
+                    t.pick(&[4usize, 5, 6, 8, 16, 32, 128, 258, hi.min(1024)]).min(hi) as c_int
                 } else {
                     t.pick(&[0i32, 1, 4, 258, 259, 4096, 65535, -1, i32::MAX, i32::MIN])
                 }
@@ -125,6 +127,11 @@ pub fn gen_plan(t: &mut Tape, po: &PlanOpts) -> DefPlan {
             let flush = if po.flush_heavy { t.pick(&[Z_NO_FLUSH, Z_PARTIAL_FLUSH, Z_SYNC_FLUSH, Z_FULL_FLUSH, Z_SYNC_FLUSH, Z_FULL_FLUSH, Z_PARTIAL_FLUSH, Z_BLOCK]) } else { t.pick(&DEF_FLUSHES) };
             ops.push(DefOp::Deflate { in_chunk, out_chunk, flush });
         }
+    }
+    // long hash chains on big low-entropy inputs cost seconds per case: keep tuned sessions small
+    let mut data = data;
+    if ops.iter().any(|o| matches!(o, DefOp::Tune { .. })) && data.len() > 24_000 {
+        data.truncate(24_000);
     }
     let cycles = t.pick(&[1usize, 1, 2, 5, 30, 300, 3000]);
     let finish_out = match t.below(6) {
